@@ -12,7 +12,8 @@ malformed frame, wrong CRC-7, application command without CMD55, data command be
 identification sequence finished, …) — that is what C14 is stated over.
 
 Timing is a parameter: `ncr` (response delay in bytes, 0..8), `nac` (data-token delay),
-`busy` (busy bytes after a write / stop), `initPolls` (ACMD41 polls until ready).
+`busy` (busy bytes after a write / stop), `initPolls` (ACMD41 polls until ready), `stopGap`
+(N_BR: bytes of 0xFF between the stop token of a multiple-block write and the busy signal, 0..1).
 
 The same definition is the card simulator the harness runs the real driver against (through
 the model driver's `card` verbs), so there is one description of the card, not two.
@@ -75,6 +76,10 @@ structure Card where
   violations : List String := []
   /-- count of commands accepted, for reporting -/
   commands : Nat := 0
+  /-- timing parameter N_BR: bytes of 0xFF between the stop token of a multiple-block write and the
+  start of the busy signal.  The specification allows 0 or 1.  (CMD12's R1b has no such gap: busy
+  follows R1 directly.)  (Last field, so that older positional uses keep working.) -/
+  stopGap : Nat := 0
   deriving Inhabited
 
 def getBlock (c : Card) (n : Nat) : List UInt8 := c.mem.getD n zeros512
@@ -204,7 +209,9 @@ def step (c : Card) (x : UInt8) : Card × UInt8 :=
       if x = 0xFF then (c, y)
       else if x = 0xFE ∧ !multi then ({ c with phase := .recvData multi n [] }, y)
       else if x = 0xFC ∧ multi then ({ c with phase := .recvData multi n [] }, y)
-      else if x = 0xFD ∧ multi then ({ c with phase := .ready, busyLeft := c.busy, out := [] }, y)
+      else if x = 0xFD ∧ multi then
+        -- stop token: after `stopGap` bytes of 0xFF the card signals busy (programming)
+        ({ c with phase := .ready, busyLeft := c.busy, out := List.replicate c.stopGap 0xFF }, y)
       else if x.toNat / 64 = 1 then
         -- a command frame instead of data: allowed only as CMD12/CMD0-style abort; otherwise a violation
         ({ violate c "command frame while the card waits for a data token" with phase := .ready, cmdBuf := [x] }, y)
@@ -269,8 +276,8 @@ def capacityOfCsd (csd : List UInt8) : Nat :=
     let cSize := byte 7 % 64 * 65536 + byte 8 * 256 + byte 9
     (cSize + 1) * 1024
 
-/-- A fresh card of the given kind holding `csd`, with the given timing. -/
-def mk (kind : Kind) (csd : List UInt8) (ncr nac busy initPolls : Nat) : Card :=
-  { kind, csd, capacity := capacityOfCsd csd, ncr, nac, busy, initPolls }
+/-- A fresh card of the given kind holding `csd`, with the given timing (`stopGap` optional: 0). -/
+def mk (kind : Kind) (csd : List UInt8) (ncr nac busy initPolls : Nat) (stopGap : Nat := 0) : Card :=
+  { kind, csd, capacity := capacityOfCsd csd, ncr, nac, busy, initPolls, stopGap }
 
 end Sdmmc.Spec.Card
